@@ -30,6 +30,17 @@ Qed.
 Lemma dkeys_map_keys {V} (f : label -> V) ks : dkeys (map (fun k => (k, f k)) ks) = ks.
 Proof. unfold dkeys. rewrite map_map. simpl. apply map_id. Qed.
 
+(* ---------------- generic: a fold whose invariant mentions the processed prefix ---------------- *)
+Lemma foldM_prefix_inv {A S} (f : S -> A -> res S) (I : list A -> S -> Prop) (order : list A) :
+  (forall P x rest s s', order = P ++ x :: rest -> I P s -> f s x = Ok s' -> I (P ++ [x]) s') ->
+  forall rest P s s', order = P ++ rest -> I P s -> foldM f rest s = Ok s' -> I order s'.
+Proof.
+  intros Hstep. induction rest as [|x rest IH]; intros P s s' E HI H; simpl in H.
+  - injection H as <-. rewrite app_nil_r in E. subst. exact HI.
+  - binv H s1 Hs1. apply (IH (P ++ [x]) s1 s'); [rewrite <- app_assoc; exact E| |exact H].
+    eapply Hstep; eassumption.
+Qed.
+
 (* the gate of c at l (dummy when absent) *)
 Definition gate_at (c : circuit) (l : label) : gate :=
   match dget (gates c) l with Some g => g | None => mkGate INPUT [] end.
